@@ -9,6 +9,7 @@ let ev_s = function
   | PStep (t, y) -> Printf.sprintf "%d:%s" (int_of_nat t) (string_of_n y)
   | PCallback -> "CB"
   | PRemoved -> "RM"
+  | PReturned t -> Printf.sprintf "P%d" (int_of_nat t)
 
 (* does thread k still have a step to make? *)
 let has_step (s : cpst) k =
